@@ -40,7 +40,7 @@ type Cfg struct {
 
 // Step is one action of a script.
 type Step struct {
-	Op    string   `json:"op"` // "in", "raw", "burst", "send", "logout", "stop", "advance", "handlerstop", "connclosed", "counter-fails"
+	Op    string   `json:"op"` // "in", "raw", "burst", "send", "logout", "stop", "advance", "handlerstop", "connclosed", "counter-fails", "wire-hold", "wire-release"
 	Raw   []byte   `json:"raw,omitempty"` // "raw": bytes handed to ServeIncoming as they are
 	In    *InMsg   `json:"in,omitempty"`
 	Burst []*InMsg `json:"burst,omitempty"`
@@ -164,6 +164,7 @@ type directRig struct {
 	events   []string
 	runEnded bool
 	tr       *Trace
+	holdCh   chan bool
 }
 
 func (r *directRig) event(name string) {
@@ -249,10 +250,22 @@ func runDirect(cfg Cfg, steps []Step, hooks *Hooks, maxHB int, tr *Trace) {
 	var reactive sync.WaitGroup
 	stopDrain := make(chan struct{})
 	drainDone := make(chan struct{})
+	holdCh := make(chan bool, 1) // "wire-hold" / "wire-release": the connection's writer stops / resumes taking messages
+	r.holdCh = holdCh
 	go func() {
 		defer close(drainDone)
+		held := false
 		for {
+			if held {
+				select {
+				case held = <-holdCh:
+				case <-stopDrain:
+					return
+				}
+				continue
+			}
 			select {
+			case held = <-holdCh:
 			case b := <-r.h.Outgoing():
 				cp := append([]byte(nil), b...)
 				r.mu.Lock()
@@ -418,6 +431,11 @@ func runDirect(cfg Cfg, steps []Step, hooks *Hooks, maxHB int, tr *Trace) {
 				stopped = true
 				_ = r.s.Stop()
 			}
+		case "wire-hold":
+			// the peer stops reading: handed-over messages stay in the handler's queue (use with a buffer)
+			r.holdCh <- true
+		case "wire-release":
+			r.holdCh <- false
 		case "counter-fails":
 			// from now on the counter store refuses to record numbers
 			r.store.SetFailSets(true)
